@@ -36,10 +36,19 @@ func VerifC01_CleanThenSmudge() {
 		trail := []string{"", "\n", "\r\n", "\n\n"}[verifChoose("trail", 4)]
 		in = "version https://git-lfs.github.com/spec/v1\noid sha256:" + oid + "\nsize " + size + trail
 	} else {
-		in = verifNondetString("content")
-		verifAssume(len(in) >= 1 && len(in) <= verifBound("content.len", 5000, 200000))
-		verifAssumeClass(in, "trimmed")
-		verifAssume(verifNot(verifOr(strings.Contains(in, "git-lfs"), verifOr(strings.Contains(in, "git-media"), strings.Contains(in, "hawser")))))
+		// content = t1 (ASCII letters: what the 1024-byte sniff sees) ++ t2 (any bytes,
+		// any length; present only when t1 fills the sniff window)
+		t1 := verifNondetString("content.head")
+		verifAssume(len(t1) >= 1 && len(t1) <= 1100)
+		verifAssumeAlphabet(t1, "AZaz")
+		verifAssume(verifNot(verifOr(strings.Contains(t1, "git-lfs"), verifOr(strings.Contains(t1, "git-media"), strings.Contains(t1, "hawser")))))
+		t2 := ""
+		if verifChoose("has.tail", 2) == 1 {
+			t2 = verifNondetString("content.tail")
+			verifAssume(len(t2) >= 1 && len(t2) <= verifBound("content.len", 4000000, 4000000))
+			verifAssume(len(t1) >= 1024)
+		}
+		in = t1 + t2
 	}
 	var out bytes.Buffer
 	ptr, err := clean(gf, &out, strings.NewReader(in), "", -1)
